@@ -25,6 +25,7 @@ DEFAULT = {
     "naux": (0, 2), "p_aux": 0.25, "p_caux": 0.2, "p_done": 0.5, "nslaves": (0, 1), "p_fiat": 0.3, "p_bid": 0.15,
     "p_marker": 0.0, "p_env": 0.8, "ticks": (6, 30), "periods": ["0.125", "0.25", "0.0625"], "p_status_need": 0.1,
     "p_inactive": 0.2, "p_period": 0.2, "go_targets": "any", "p_auxdone": 0.0, "p_done_named": 0.0,
+    "p_go_me_parent": 0.0,   # probability that a frame with children gets a periodic forced re-entry ('go me if recurred >= k')
     "p_staged": 0.0,     # probability of a master framer walking a slave through a drawn sequence of fiats, one per frame
 }
 
@@ -134,6 +135,9 @@ def _frames(g, cfg, prefix, framer_names, P, aux_names, slave_names, is_aux=Fals
                     b["period"] = dec(g.choice([0, 1, 2, 3]) * Fraction(P))
                 acts.append(b)
         # transitions last (they are precur context in declaration order)
+        if kids.get(nm) and g.random() < cfg.get("p_go_me_parent", 0.0):
+            acts.append({"k": "go", "far": "me", "needs": [g.choice([{"t": "recurred", "op": ">=", "goal": g.randint(1, 4)},
+                                                                      {"t": "elapsed", "op": ">=", "goal": dec(g.randint(1, 5) * Fraction(P))}])]})
         ngo = 0
         while g.random() < cfg["p_go"] and ngo < 3:
             ngo += 1
